@@ -78,6 +78,7 @@ type interpreter struct {
 	curFr              *frame
 	fs                 *fsModel
 	hashes             []hashRec
+	builtSeen          map[*ssa.Package]bool
 }
 
 type deferred struct {
@@ -581,7 +582,7 @@ func visitInstr(fr *frame, instr ssa.Instruction) continuation {
 		fr.env[instr] = i.doSelect(fr, instr)
 
 	default:
-		panic(unsupported(fmt.Sprintf("instruction %T", instr)))
+		panic(unsupported(fmt.Sprintf("instruction %T in %s", instr, fr.fn.String())))
 	}
 
 	return kNext
@@ -805,12 +806,24 @@ func callSSA(i *interpreter, caller *frame, callpos token.Pos, fn *ssa.Function,
 			return r
 		}
 	}
-	if fn.Blocks == nil {
-		if fn.Pkg != nil {
-			i.sh.build(fn.Pkg)
-		} else if o := fn.Origin(); o != nil && o.Pkg != nil {
-			i.sh.build(o.Pkg)
+	// never look at a function of a package another worker may still be building
+	// (ssa.Package.Build rewrites instruction lists in place)
+	{
+		pkg := fn.Pkg
+		if pkg == nil {
+			if o := fn.Origin(); o != nil {
+				pkg = o.Pkg
+			}
 		}
+		if pkg == nil && fn.Parent() != nil {
+			pkg = fn.Parent().Pkg
+		}
+		if pkg != nil && !i.builtSeen[pkg] {
+			i.sh.build(pkg)
+			i.builtSeen[pkg] = true
+		}
+	}
+	if fn.Blocks == nil {
 		if fn.Blocks == nil {
 			if i.initDepth > 0 {
 				return poison{"no code for " + fi.name}
